@@ -4,6 +4,6 @@ From Verif Require Import Base.Check Model.Gigaword Model.Acct Model.AcctSpec.
 Import ListNotations.
 
 Definition case := (N * list (op * out))%type.     (* MaxRetries, trace *)
-Definition mk (c : case) : state * sstate * list (op * out) := (init (fst c), sinit (fst c), snd c).
+Definition mk (c : case) : state * (sstate * aux) * list (op * out) := (init (fst c), (sinit (fst c), ainit), snd c).
 Definition run_cases (cs : list case) : list (list N) :=
-  check_all step accept out_eqb 1%N (map mk cs).
+  check_all step accept7 out_eqb 1%N (map mk cs).
